@@ -15,6 +15,15 @@ def run(ctx):
     dead = [a for a, (d, t) in r.coverage.items() if t == 0]
     if dead:
         ctx.machinery(f"TLC MCProxy: actions never taken {dead}")
+    # the control plane shares the forwarder's receiver thread with the data plane: a pending wait request must not block a kill
+    pc = tlc.run("MCProxyCtl", "PC.cfg", scratch=ctx.scratch, timeout=600, parse_trace=False)
+    pe = tlc.run("MCProxyCtl", "PC_exits.cfg", scratch=ctx.scratch, timeout=600, parse_trace=False)
+    if not (pc.ok and pe.ok):
+        ctx.machinery(f"TLC MCProxyCtl: {pc.violated or pe.violated} {(pc.error or pe.error)[:400]}")
+    pu = tlc.run("MCProxyCtl", "PC_unfixed.cfg", scratch=ctx.scratch, timeout=600, parse_trace=False)
+    if not pu.violated or pu.violated == "error":
+        ctx.machinery("TLC: the design that waits for the sub process inside the forwarder's receiver thread is not rejected (ProxyCtl vacuous)")
+    ctx.note(f"TLC ProxyCtl: {pc.distinct + pe.distinct} states: a kill request reaches the process behind a pending wait request, every request is answered, data keeps moving; the in-receiver-thread design is killed by {pu.violated}")
     ctx.note(f"TLC MCProxy: {r.generated} states, {r.distinct} distinct: the proxied connection is a FIFO byte stream in both directions, control requests reach the sub; {r.wall:.1f}s")
     kinds = ["popen", "python", "socket", "via"]
     ems = ["thread", "main_thread_only", "gevent"]
